@@ -8,6 +8,7 @@ from .seq import Seq
 
 class Class(Expression):
     has_params = True
+    is_class = True
 
     is_tagged = False
     is_commented = False
@@ -20,6 +21,9 @@ class Class(Expression):
         self.members = members
         self.is_ignored = is_ignored
         self.extra_id = None
+
+        for member in members:
+            member.is_field = True
 
     def __str__(self):
         params = '' if self.params is None else f'({", ".join(self.params)})'
